@@ -27,8 +27,20 @@ FirstBad(e, k) == IF k > Len(e.vals) THEN "ok"
                   ELSE LET c == InputClause(e, k) IN
                        IF c # "ok" THEN c \o "_in" \o ToString(k) ELSE FirstBad(e, k + 1)
 
+\* programs with a group-valued output (raw coordinates, arbitrary dense cotangents): the Jacobian of raw
+\* coordinates is not defined by the property, but the slot of every group gradient beyond the manifold
+\* dimension must still be exactly zero and everything finite
+RECURSIVE ZeroSlotBad(_, _)
+ZeroSlotBad(e, k) ==
+  IF k > Len(e.vals) THEN "ok"
+  ELSE LET n == TanDim(e.ty, e.kinds[k], e.vals[k]) IN
+       IF e.kinds[k] = "G" /\ \E r \in 1..Len(e.jac[k]) : (Len(e.jac[k][r]) # n + 1 \/ e.jac[k][r][n + 1] # DZero)
+       THEN "zero_slot_in" \o ToString(k)
+       ELSE ZeroSlotBad(e, k + 1)
+
 Clause(e) ==
-  IF ~Defined(e.ty, e.prog, BaseEnv(e.ty, e.kinds, e.vals)) THEN "program_outside_exact_fragment"
+  IF e.zero_only THEN (IF ~e.finite THEN "nonfinite" ELSE ZeroSlotBad(e, 1))
+  ELSE IF ~Defined(e.ty, e.prog, BaseEnv(e.ty, e.kinds, e.vals)) THEN "program_outside_exact_fragment"
   ELSE IF ~e.finite THEN "nonfinite"
   ELSE IF e.value # Value(e.ty, e.prog, e.kinds, e.vals) THEN "value"
   ELSE FirstBad(e, 1)
